@@ -211,7 +211,8 @@ def classify(vio):
                                 return "F6"
                         except Exception:
                             pass
-    return None
+    from vlib import known
+    return known.classify(vio)
 
 
 if __name__ == "__main__":
